@@ -2,6 +2,9 @@
 (echo "phase:spec")
 (declare-fun keysOf (Sl.RV RV) Bool)        ; ks is some enumeration of the keys of map v
 (declare-fun sortedKeys (RV) Sl.RV)         ; the keys of v in ascending string order
+(declare-fun idxOf (Sl.RV RV) Int)          ; position of a key in an enumeration
+(assert (forall ((ks Sl.RV) (v RV) (k RV)) (! (=> (and (keysOf ks v) (valid (mapget v k))) (and (<= 0 (idxOf ks k)) (< (idxOf ks k) (Sl.RV.len ks)) (= (Sl.RV.at ks (idxOf ks k)) k))) :pattern ((keysOf ks v) (mapget v k)))))
+(assert (forall ((ks Sl.RV) (v RV) (j Int)) (! (=> (and (keysOf ks v) (<= 0 j) (< j (Sl.RV.len ks))) (and (valid (mapget v (Sl.RV.at ks j))) (= (idxOf ks (Sl.RV.at ks j)) j) (inv.RV (mapget v (Sl.RV.at ks j))) (=> (canIface v) (canIface (Sl.RV.at ks j))))) :pattern ((keysOf ks v) (Sl.RV.at ks j)))))
 ; A-SORT: sorting any enumeration of the keys of v by the string order yields sortedKeys(v)
 (assert (forall ((ks Sl.RV) (v RV) (f Fn))
   (! (=> (and (keysOf ks v) ((_ is fn.bexpr.evaluateCollectionExpression$1) f)) (= (sortedBy.Sl.RV ks f) (sortedKeys v)))
